@@ -267,7 +267,9 @@ func c12Cleared(c *an.Ctx) {
 	c.MinCount("R1", "writers of the transformation cache", n, 1)
 }
 
-func c12Interning(c *an.Ctx) {
+func c12Interning(c *an.Ctx) { internTables(c, "R4", true) }
+
+func internTables(c *an.Ctx, R string, withRuleFields bool) {
 	lock := "corazawaf.transformationIDsLock"
 	guarded := map[string]bool{"transformationIDToName": true, "transformationNameToID": true}
 	nAcc := 0
@@ -300,28 +302,31 @@ func c12Interning(c *an.Ctx) {
 		for ri, r := range reads {
 			nAcc++
 			st := an.LockState(r, lock)
-			c.Check(st != "none", "R4", fmt.Sprintf("read #%d of the interning tables in %s under the lock", ri+1, an.RelName(fn)), r.Pos(), "lock held: "+st, "the prefix-id tables are read without holding transformationIDsLock: concurrent WAF construction races with the append")
+			c.Check(st != "none", R, fmt.Sprintf("read #%d of the interning tables in %s under the lock", ri+1, an.RelName(fn)), r.Pos(), "lock held: "+st, "the prefix-id tables are read without holding transformationIDsLock: concurrent WAF construction races with the append")
 		}
 		for wi, w := range writes {
 			nAcc++
 			st := an.LockState(w, lock)
-			c.Check(st == "exclusive", "R4", fmt.Sprintf("write #%d of the interning tables in %s under the exclusive lock", wi+1, an.RelName(fn)), w.Pos(), "exclusive lock held", "the prefix-id tables are written without the exclusive lock (state: "+st+")")
+			c.Check(st == "exclusive", R, fmt.Sprintf("write #%d of the interning tables in %s under the exclusive lock", wi+1, an.RelName(fn)), w.Pos(), "exclusive lock held", "the prefix-id tables are written without the exclusive lock (state: "+st+")")
 			// check-then-act: every read feeding this function's decision happens in the same critical section
 			for _, r := range reads {
 				if an.LockState(r, lock) == "none" {
 					continue // already reported as an unlocked read
 				}
 				if !an.SameCriticalSection(r, w, lock) {
-					c.Bad("R4", fmt.Sprintf("id chosen and inserted in one critical section in %s (write #%d)", an.RelName(fn), wi+1), w.Pos(),
+					c.Bad(R, fmt.Sprintf("id chosen and inserted in one critical section in %s (write #%d)", an.RelName(fn), wi+1), w.Pos(),
 						"the tables are read at "+c.P.Position(r.Pos())+" and written here after the lock was released in between: two concurrent registrations can pick the same id for different transformation lists")
 				}
 			}
 		}
 	}
-	c.MinCount("R4", "accesses to the interning tables", nAcc, 4)
+	c.MinCount(R, "accesses to the interning tables", nAcc, 4)
+	if !withRuleFields {
+		return
+	}
 	// the three per-rule fields move together
 	for _, fname := range []string{"internal/corazawaf.(*Rule).AddTransformation", "internal/corazawaf.(*Rule).ClearTransformations"} {
-		fn := c.Fn("R4", fname)
+		fn := c.Fn(R, fname)
 		if fn == nil {
 			continue
 		}
@@ -338,14 +343,14 @@ func c12Interning(c *an.Ctx) {
 				}
 				return errIdx < 0 || an.ReturnMayBeNilError(r, errIdx)
 			}})
-			c.Check(w == nil, "R4", shortFn(fname)+" updates "+fld, fn.Pos(), "stored on every successful path", shortFn(fname)+" can succeed without updating Rule."+fld+": the prefix-id list no longer describes the transformation list")
+			c.Check(w == nil, R, shortFn(fname)+" updates "+fld, fn.Pos(), "stored on every successful path", shortFn(fname)+" can succeed without updating Rule."+fld+": the prefix-id list no longer describes the transformation list")
 		}
 	}
 	for _, fld := range []string{"transformations", "transformationsID", "transformationPrefixIDs"} {
 		for _, fs := range c.P.StoresToField(pkgWAF, "Rule", fld) {
 			name := an.RelName(fs.Fn)
 			ok := name == "internal/corazawaf.(*Rule).AddTransformation" || name == "internal/corazawaf.(*Rule).ClearTransformations" || name == "internal/corazawaf.NewRule"
-			c.Check(ok, "R4", "Rule."+fld+" written only by Add/ClearTransformations ("+name+")", fs.Store.Pos(), "owner", "Rule."+fld+" is written outside AddTransformation/ClearTransformations")
+			c.Check(ok, R, "Rule."+fld+" written only by Add/ClearTransformations ("+name+")", fs.Store.Pos(), "owner", "Rule."+fld+" is written outside AddTransformation/ClearTransformations")
 		}
 	}
 	// AddTransformation: new id derives from the previous id and the name; prefix list appended with that id
@@ -353,13 +358,13 @@ func c12Interning(c *an.Ctx) {
 		for _, fs := range c.P.StoresToField(pkgWAF, "Rule", "transformationsID") {
 			if fs.Fn == fn {
 				e := tempName.ReplaceAllString(an.Expr(fs.Store.Val), "")
-				c.Check(e == "corazawaf.transformationID(r.transformationsID,name)", "R4", "AddTransformation: next id is a function of (previous id, name)", fs.Store.Pos(), e, "the chain id is computed as "+e)
+				c.Check(e == "corazawaf.transformationID(r.transformationsID,name)", R, "AddTransformation: next id is a function of (previous id, name)", fs.Store.Pos(), e, "the chain id is computed as "+e)
 			}
 		}
 		for _, fs := range c.P.StoresToField(pkgWAF, "Rule", "transformationPrefixIDs") {
 			if fs.Fn == fn {
 				e := tempName.ReplaceAllString(an.Expr(fs.Store.Val), "")
-				c.Check(strings.HasPrefix(e, "append(r.transformationPrefixIDs,") && (strings.Contains(e, "transformationID(") || strings.Contains(e, "r.transformationsID")), "R4", "AddTransformation: prefix list extended by the new id", fs.Store.Pos(), e, "the prefix-id list is updated as "+e)
+				c.Check(strings.HasPrefix(e, "append(r.transformationPrefixIDs,") && (strings.Contains(e, "transformationID(") || strings.Contains(e, "r.transformationsID")), R, "AddTransformation: prefix list extended by the new id", fs.Store.Pos(), e, "the prefix-id list is updated as "+e)
 			}
 		}
 	}
